@@ -50,7 +50,7 @@ type OpSpec struct {
 	Silent bool   `json:"silent,omitempty"`
 	TZ     bool   `json:"tz,omitempty"`   // exec.WithTZ
 	Zone   string `json:"zone,omitempty"` // "" (no zone in ctx), "UTC", "+05:30", "America/New_York", ...
-	Ctx    string `json:"ctx,omitempty"`  // "" = stub; "cancel", "deadline", "parent"
+	Ctx    string `json:"ctx,omitempty"`  // "" = stub; "cancel", "deadline", "parent", "cause"
 	Fault  *Fault `json:"fault,omitempty"`
 }
 
@@ -154,7 +154,7 @@ func (s *Scenario) Validate() error {
 				}
 			}
 			switch o.Ctx {
-			case "", "cancel", "deadline", "parent":
+			case "", "cancel", "deadline", "parent", "cause":
 			default:
 				return fmt.Errorf("scenario: %s: bad ctx kind %q", where, o.Ctx)
 			}
